@@ -742,9 +742,10 @@ def c11(run):
 
 @prop('C13', 'exploration')
 def c13(run):
-    run.mc('MCSigDigest', sigdigest_cfg(), name='mc', workers=1)
-    g = run.mc('MCSigDigest', sigdigest_cfg(invs='GenFpr'), name='gen', workers=1, count=False)
-    cases = [c for c in g.cases if c['kind'] == 'fingerprint']
+    run.mc('MCSigDigest', sigdigest_cfg(invs='LayoutConsistent FingerprintFramingAgrees MatchRule'), name='mc', workers=1)
+    run.mc('MCSigDigest', sigdigest_cfg(by_key=False, invs='FingerprintFramingAgrees'), name='sens_fingerprint_framing', workers=1, expect_violation='FingerprintFramingAgrees')
+    g = run.mc('MCSigDigest', sigdigest_cfg(invs='GenFpr GenMatch'), name='gen', workers=1, count=False)
+    cases = [c for c in g.cases if c['kind'] in ('fingerprint', 'match')]
     for i, c in enumerate(cases):
         c.setdefault('ci', i)
     body, summary, oks = run.harness('c13', cases, timeout=3300)
